@@ -488,6 +488,27 @@ theorem C03_planar_index (c : Int) (ps : List Int) (d : Int) (hc : 0 < c) (hc' :
 /-- rgb16 planar: `it[3]` is 6 bytes further in each of the three planes -/
 example : planarIndex 2 [100, 4196, 8292] 3 = [106, 4202, 8298] ∧ planarIndex 2 [100, 4196, 8292] (-2) = planarAdvance 2 [100, 4196, 8292] (-2) := by decide
 
+/-- `homogeneous_color_base<.,.,n>(ptr, diff)` (n = 2..5): member `k` is bound to channel pointer `k` -/
+theorem C03_kernel_color_base_ref :
+    hcb_ref_plane_2_0 = 0 ∧ hcb_ref_plane_2_1 = 1
+    ∧ hcb_ref_plane_3_0 = 0 ∧ hcb_ref_plane_3_1 = 1 ∧ hcb_ref_plane_3_2 = 2
+    ∧ hcb_ref_plane_4_0 = 0 ∧ hcb_ref_plane_4_1 = 1 ∧ hcb_ref_plane_4_2 = 2 ∧ hcb_ref_plane_4_3 = 3
+    ∧ hcb_ref_plane_5_0 = 0 ∧ hcb_ref_plane_5_1 = 1 ∧ hcb_ref_plane_5_2 = 2 ∧ hcb_ref_plane_5_3 = 3 ∧ hcb_ref_plane_5_4 = 4 := by
+  unfold hcb_ref_plane_2_0 hcb_ref_plane_2_1 hcb_ref_plane_3_0 hcb_ref_plane_3_1 hcb_ref_plane_3_2 hcb_ref_plane_4_0 hcb_ref_plane_4_1
+    hcb_ref_plane_4_2 hcb_ref_plane_4_3 hcb_ref_plane_5_0 hcb_ref_plane_5_1 hcb_ref_plane_5_2 hcb_ref_plane_5_3 hcb_ref_plane_5_4
+  decide
+
+/-- **`memunit_advanced_ref` of a planar iterator** (2, 3, 4 or 5 planes: what `view(x,y)`, `loc(dx,dy)`, `loc[point]`, `loc[cached_location]` and
+    `it[d]` return): channel `k` of the reference lives `diff` memory units after channel pointer `k` -- in EVERY plane, the same planar
+    address law as the move-then-dereference paths -/
+theorem C03_planar_ref (a b c d e diff : Int) :
+    planarRef [a, b] diff = [a + diff, b + diff]
+    ∧ planarRef [a, b, c] diff = [a + diff, b + diff, c + diff]
+    ∧ planarRef [a, b, c, d] diff = [a + diff, b + diff, c + diff, d + diff]
+    ∧ planarRef [a, b, c, d, e] diff = [a + diff, b + diff, c + diff, d + diff, e + diff] := by
+  obtain ⟨k1, k2, k3, k4, k5, k6, k7, k8, k9, k10, k11, k12, k13, k14⟩ := C03_kernel_color_base_ref
+  simp [planarRef, refPlane, k1, k2, k3, k4, k5, k6, k7, k8, k9, k10, k11, k12, k13, k14, C03_kernel_ptr_advanced, List.range_succ]
+
 /-! ## Part B -- the model of image_view's navigation paths -/
 
 /-- `memunit_advance` is exact for every iterator kind (pointer add; every plane pointer for planar iterators;
